@@ -272,7 +272,32 @@ func (t *Table) fetchQueryData(input QueryInput) (*index, []string) {
 	return nil, t.SortedKeys
 }
 
-func prepareSearch(input *QueryInput, index *index, k, startKey string) (string, bool) {
+// startPosition is the position named by an exclusive start key: the primary key of the item and,
+// when an index is read, its index key
+type startPosition struct {
+	key      string
+	indexKey string
+}
+
+// after tells if the entry (indexKey, key) comes after the start position in the direction of the search,
+// it does not need the item named by the start key to still be there
+func (s startPosition) after(indexKey, key string, forward bool) bool {
+	if indexKey == s.indexKey {
+		if forward {
+			return key > s.key
+		}
+
+		return key < s.key
+	}
+
+	if forward {
+		return indexKey > s.indexKey
+	}
+
+	return indexKey < s.indexKey
+}
+
+func prepareSearch(input *QueryInput, index *index, k string, start startPosition) (string, bool) {
 	pk, ok := getPrimaryKey(index, k)
 	if !ok {
 		return pk, ok
@@ -282,8 +307,22 @@ func prepareSearch(input *QueryInput, index *index, k, startKey string) (string,
 		return pk, true
 	}
 
-	if pk == startKey {
-		input.started = true
+	switch {
+	case index == nil:
+		input.started = start.after("", pk, input.ScanIndexForward)
+	case start.indexKey == "":
+		// the start key does not carry the index key, fall back to look for the item itself
+		if pk == start.key {
+			input.started = true
+		}
+
+		return "", false
+	default:
+		input.started = start.after(k, pk, input.ScanIndexForward)
+	}
+
+	if input.started {
+		return pk, true
 	}
 
 	return "", false
@@ -336,6 +375,12 @@ func (t *Table) SearchData(input QueryInput) ([]map[string]*types.Item, map[stri
 
 	startKey := t.parseStartKey(t.KeySchema, exclusiveStartKey)
 	input.started = startKey == ""
+
+	start := startPosition{key: startKey}
+	if index != nil && len(exclusiveStartKey) != 0 {
+		start.indexKey, _ = index.keySchema.GetKey(t.AttributesDef, exclusiveStartKey)
+	}
+
 	last := map[string]*types.Item{}
 	sortedKeysSize := int64(len(sortedKeys))
 
@@ -349,7 +394,7 @@ func (t *Table) SearchData(input QueryInput) ([]map[string]*types.Item, map[stri
 	for pos := range sortedKeys {
 		k := GetKeyAt(sortedKeys, sortedKeysSize, int64(pos), forward)
 
-		pk, ok := prepareSearch(&input, index, k, startKey)
+		pk, ok := prepareSearch(&input, index, k, start)
 		if !ok {
 			scanned++
 			continue
